@@ -691,11 +691,27 @@ theorem shiftToken_eof {p q : Nat} {d : Int} (h : (q : Int) = p + d) :
 /-- **`lexer::update` equals `lexer::lex` of the new text** (given look-ahead locality):
     for every old text `pre ++ mid ++ post`, every replacement `ins` of `mid`, updating the
     tokens of the old text yields exactly the tokens of `pre ++ ins ++ post`. -/
-theorem lexUpdate_eq_lex (hloc : LexLocal) (pre mid ins post : List Char) :
-    ∃ ch, lexUpdate (pre ++ ins ++ post)
+theorem tailOf_suffix (L R : List Token) : tailOf L R <:+ R := by
+  unfold tailOf
+  split
+  · exact List.dropWhile_suffix _
+  · exact List.suffix_refl R
+
+/-- The edit's length difference, as `lexer::update` computes it. -/
+def editDelta (pre mid ins : List Char) : Int :=
+  (utf8Len ins : Int) - ((utf8Len pre + utf8Len mid - utf8Len pre : Nat) : Int)
+
+theorem lexUpdate_spec (hloc : LexLocal) (pre mid ins post : List Char) :
+    ∃ (H X1 X2 R newToks tail : List Token),
+      lexL (pre ++ mid ++ post) 0 = H ++ X1 ++ X2 ∧
+      lexL (pre ++ ins ++ post) 0 = H ++ newToks ++ tail ∧
+      tail <:+ R ∧
+      X2.mapM (fun t => shiftToken? t (editDelta pre mid ins)) = some R ∧
+      lexUpdate (pre ++ ins ++ post)
         (lexL (pre ++ mid ++ post) 0 ++ [eofToken (utf8Len (pre ++ mid ++ post))])
         (utf8Len pre) (utf8Len pre + utf8Len mid) (utf8Len ins) =
-      .ok (lexL (pre ++ ins ++ post) 0 ++ [eofToken (utf8Len (pre ++ ins ++ post))], ch) := by
+      .ok (lexL (pre ++ ins ++ post) 0 ++ [eofToken (utf8Len (pre ++ ins ++ post))],
+           ⟨H.length, (lexL (pre ++ mid ++ post) 0).length - tail.length, newToks.length⟩) := by
   obtain ⟨H, a1, g, ha, hO, hN, hHun, hXaff, hH0, hHlast⟩ :=
     head_stable hloc (pre ++ (mid ++ post)) 0 pre (mid ++ post) (ins ++ post) rfl
   simp only [Nat.zero_add] at hO hN hHun hXaff hHlast
@@ -760,7 +776,8 @@ theorem lexUpdate_eq_lex (hloc : LexLocal) (pre mid ins post : List Char) :
     rw [← hw, hL, ← hq, hRdef] at this
     exact this
   have hNN : lexL (pre ++ ins ++ post) 0 = H ++ L := by rw [List.append_assoc]; exact hN
-  refine ⟨⟨H.length, (lexL (pre ++ mid ++ post) 0).length - (tailOf L R).length, (newToksOf L R).length⟩, ?_⟩
+  refine ⟨H, X1, X2, R, newToksOf L R, tailOf L R, by rw [hOO, eX, List.append_assoc],
+    by rw [hNN, List.append_assoc, hst], tailOf_suffix L R, hRe, ?_⟩
   unfold lexUpdate
   simp only [e1]
   have e2 : ((eofToken (utf8Len (pre ++ mid ++ post))).ty != TokenType.Eof) = false := by
@@ -811,5 +828,105 @@ theorem lexUpdate_eq_lex (hloc : LexLocal) (pre mid ins post : List Char) :
     have : H = [] := List.getLast?_eq_none_iff.mp hl
     exact fin 0 (by rw [hH0 this]; rfl)
   | some t => exact fin t.range.hi (hHlast t hl)
+
+/-- **`lexer::update` equals `lexer::lex` of the new text** (given look-ahead locality). -/
+theorem lexUpdate_eq_lex (hloc : LexLocal) (pre mid ins post : List Char) :
+    ∃ ch, lexUpdate (pre ++ ins ++ post)
+        (lexL (pre ++ mid ++ post) 0 ++ [eofToken (utf8Len (pre ++ mid ++ post))])
+        (utf8Len pre) (utf8Len pre + utf8Len mid) (utf8Len ins) =
+      .ok (lexL (pre ++ ins ++ post) 0 ++ [eofToken (utf8Len (pre ++ ins ++ post))], ch) := by
+  obtain ⟨H, X1, X2, R, nt, tl, _, _, _, _, h⟩ := lexUpdate_spec hloc pre mid ins post
+  exact ⟨_, h⟩
+
+theorem mapM_option_drop {α β} (f : α → Option β) : ∀ (l : List α) (r : List β) (k : Nat),
+    l.mapM f = some r → (l.drop k).mapM f = some (r.drop k)
+  | l, r, 0, h => by simpa using h
+  | [], r, k + 1, h => by
+    simp at h; subst h; simp
+  | x :: xs, r, k + 1, h => by
+    rw [List.mapM_cons] at h
+    cases hx : f x with
+    | none => simp [hx] at h
+    | some y =>
+      cases hxs : xs.mapM f with
+      | none => simp [hx, hxs] at h
+      | some ys =>
+        simp [hx, hxs] at h
+        subst h
+        simpa using mapM_option_drop f xs ys k hxs
+
+theorem mapM_option_length {α β} (f : α → Option β) : ∀ (l : List α) (r : List β),
+    l.mapM f = some r → r.length = l.length
+  | [], r, h => by simp at h; subst h; rfl
+  | x :: xs, r, h => by
+    rw [List.mapM_cons] at h
+    cases hx : f x with
+    | none => simp [hx] at h
+    | some y =>
+      cases hxs : xs.mapM f with
+      | none => simp [hx, hxs] at h
+      | some ys =>
+        simp [hx, hxs] at h
+        subst h
+        simp [mapM_option_length f xs ys hxs]
+
+/-- **The change window is truthful**: the tokens before `delLo` are the old ones untouched; the
+    old tokens from `delHi` on, shifted by the length difference of the edit, are exactly the new
+    tokens after the `insLen` inserted ones; and the window is well-formed. -/
+theorem lexUpdate_window (hloc : LexLocal) (pre mid ins post : List Char) :
+    ∃ ch, lexUpdate (pre ++ ins ++ post)
+        (lexL (pre ++ mid ++ post) 0 ++ [eofToken (utf8Len (pre ++ mid ++ post))])
+        (utf8Len pre) (utf8Len pre + utf8Len mid) (utf8Len ins) =
+      .ok (lexL (pre ++ ins ++ post) 0 ++ [eofToken (utf8Len (pre ++ ins ++ post))], ch) ∧
+      ch.delLo ≤ ch.delHi ∧ ch.delHi ≤ (lexL (pre ++ mid ++ post) 0).length ∧
+      (lexL (pre ++ ins ++ post) 0 ++ [eofToken (utf8Len (pre ++ ins ++ post))]).take ch.delLo =
+        (lexL (pre ++ mid ++ post) 0 ++ [eofToken (utf8Len (pre ++ mid ++ post))]).take ch.delLo ∧
+      ((lexL (pre ++ mid ++ post) 0 ++ [eofToken (utf8Len (pre ++ mid ++ post))]).drop ch.delHi).mapM
+          (fun t => shiftToken? t (editDelta pre mid ins)) =
+        some ((lexL (pre ++ ins ++ post) 0 ++ [eofToken (utf8Len (pre ++ ins ++ post))]).drop
+          (ch.delLo + ch.insLen)) := by
+  obtain ⟨H, X1, X2, R, nt, tl, hO, hN, hsuf, hR, h⟩ := lexUpdate_spec hloc pre mid ins post
+  refine ⟨_, h, ?_, ?_, ?_, ?_⟩
+  · -- delLo ≤ delHi
+    have hlenR := mapM_option_length _ _ _ hR
+    have hl := hsuf.length_le
+    simp only [hO, List.length_append]
+    omega
+  · simp only; omega
+  · rw [hO, hN]
+    simp only [List.append_assoc]
+    rw [List.take_left' rfl, List.take_left' rfl]
+  · have hlenR := mapM_option_length _ _ _ hR
+    have hl := hsuf.length_le
+    have htl : tl = R.drop (R.length - tl.length) := List.suffix_iff_eq_drop.mp hsuf
+    -- the old tokens from delHi on are the last |tl| reusable ones, then Eof
+    have e1 : (lexL (pre ++ mid ++ post) 0 ++ [eofToken (utf8Len (pre ++ mid ++ post))]).drop
+        ((lexL (pre ++ mid ++ post) 0).length - tl.length) =
+        X2.drop (X2.length - tl.length) ++ [eofToken (utf8Len (pre ++ mid ++ post))] := by
+      rw [List.drop_append_of_le_length (by omega)]
+      congr 1
+      rw [hO]
+      have : (H ++ X1 ++ X2).length - tl.length = (H ++ X1).length + (X2.length - tl.length) := by
+        simp only [List.length_append]; omega
+      rw [this, List.drop_length_add_append]
+    have e2 : (lexL (pre ++ ins ++ post) 0 ++ [eofToken (utf8Len (pre ++ ins ++ post))]).drop
+        (H.length + nt.length) = tl ++ [eofToken (utf8Len (pre ++ ins ++ post))] := by
+      rw [hN]
+      have : H ++ nt ++ tl ++ [eofToken (utf8Len (pre ++ ins ++ post))] =
+          (H ++ nt) ++ (tl ++ [eofToken (utf8Len (pre ++ ins ++ post))]) := by simp
+      rw [this, List.drop_left' (by simp)]
+    show List.mapM _ (List.drop ((lexL (pre ++ mid ++ post) 0).length - tl.length) _) =
+      some (List.drop (H.length + nt.length) _)
+    rw [e1, e2, List.mapM_append]
+    have h1 := mapM_option_drop _ X2 R (X2.length - tl.length) hR
+    rw [h1]
+    have h2 : shiftToken? (eofToken (utf8Len (pre ++ mid ++ post))) (editDelta pre mid ins) =
+        some (eofToken (utf8Len (pre ++ ins ++ post))) := by
+      apply shiftToken_eof
+      simp only [utf8Len_append, editDelta]
+      omega
+    simp only [List.mapM_cons, List.mapM_nil, h2]
+    rw [← hlenR, ← htl]
+    rfl
 
 end Spl
